@@ -1,0 +1,23 @@
+//go:build verif
+
+// Verification accessors for property C37 (add-only file, build tag verif).
+package multicast
+
+import (
+	"time"
+
+	"github.com/gauss-project/aurorafs/pkg/boson"
+	"github.com/gauss-project/aurorafs/pkg/multicast/model"
+)
+
+// VerifC37JoinGroup registers gid as a joined group the way joinGroup does (without its
+// background handshakes/discovery) and sets the flag SubscribeGroupMessage sets when a
+// websocket client subscribes to the group's messages.
+func (s *Service) VerifC37JoinGroup(gid boson.Address, msgSub bool) {
+	g := s.newGroup(gid, model.ConfigNodeGroup{Name: gid.String(), GType: model.GTypeJoin})
+	g.groupMsgSub = msgSub
+	g.groupPeersLastSend = time.Time{}
+}
+
+// VerifC37GroupCount returns the number of group objects.
+func (s *Service) VerifC37GroupCount() int { return len(s.getGroupAll()) }
